@@ -320,6 +320,9 @@ def run(ctx):
     # the kind of the value read back (task / sentence / term) is decided by slot presence alone, identically in both parsers (seed c11-h)
     import c15 as _c15
     _c15.rule_K_KIND(ctx)
+    # what the lexical parser accepts as stamp / truth / budget content is a property of the format tables' predicates (seeds c03-k, c11-k: '0'..'9')
+    import tables as _tb
+    _tb.rule_T_PRED(ctx, _tb.Tables(ctx))
     ctx.undecided = ["that the reference grammar derives the same tree as the lexical parser for every output (equivalence of two parsers over all strings)",
                      "PEG ordered-choice subtleties (e.g. the statement alternative tried before compound) are not modelled"]
     ctx.assumptions = ["unicodedata general categories P*/S* = pest's PUNCTUATION|SYMBOL", "the frozen reference lexicon was transcribed correctly from the OpenNARS wiki grammar"]
